@@ -27,8 +27,8 @@ CHECKS = {
          "pandas positional row access (iloc) is trusted/stubbed by a list-backed stand-in"),
  "C10": ("K+X", "4.C10", "Moore/von Neumann neighbour lists lifted from source with loops unrolled 2R+1 times: exact membership (count of a symbolic probe cell), ascending order, id form == coordinate form, for all extents with radius <= R or all radii with extents <= 2R+1; unwinding assertions discharged",
          "radius bound R = 2/4; wrapping excluded by the property"),
- "C11": ("X", "4.C11", "every source kind (callable, nesting callable, list with solver-chosen mixed element kinds, ndarray, ConstantGenerator with scalar/sequence constants) stores each cell's own value and is independent of later changes to the caller's list/array; add/remove histories over two same-shaped worlds built by the real constructors; LookupGenerator on tables of the world's dimensionality (finding F4 for 1-D/2-D worlds)",
-         "decided relative to a stand-in implementing pandas' documented contract for the five DataFrame operations ECAgent uses (worst case where the contract leaves a choice: an assigned ndarray may be aliased); pandas' own internals are outside"),
+ "C11": ("X", "4.C11", "every source kind (callable, nesting callable, list with solver-chosen mixed element kinds, ndarray, ConstantGenerator with scalar/sequence constants) stores each cell's own value and is independent of later changes to the caller's list/array; add/remove histories over two same-shaped worlds built by the real constructors; add/remove histories incl. failing adds and the hostile name 'pos'; LookupGenerator on tables of the world's dimensionality (finding F4 for 1-D/2-D worlds); None among numbers is stored as NaN (finding F7, decided on its class)",
+         "decided relative to a stand-in implementing pandas' contract for the DataFrame operations ECAgent uses, incl. the measured dtype-inference rule for None among numbers (worst case where the contract leaves a choice: an assigned ndarray may be aliased); pandas' own internals are outside"),
  "C12": ("X+K", "4.C12", "exact box membership, join order and [] for 1-2(+1) agents with all positions, query points and four leeways symbolic ints; real-valued box on the lifted source (K); known finding F5 (no seam-aware matching) decided on its class",
          "double rounding at box faces is outside (Float64 lemma does not finish)"),
  "C13": ("X", "4.C13", "template and tag filters exact for <= 3 agents with symbolic component subsets and unbounded tags (0 included); pick = spec[r mod k] and shuffle = Fisher-Yates for a symbolic generator stream; histories with every query pattern",
